@@ -520,7 +520,7 @@ META = {
                                    "collection replacement, child.parent = p / None, del child.parent; sets: add, remove, discard, "
                                    "pop, clear, update, difference/intersection/symmetric_difference_update, replacement"},
         "thorough": {"history": "2 steps over the full alphabet from every initial configuration; from the empty configuration 3 steps "
-                                "over the full alphabet (one-to-one: 4 steps; many-to-many: 2 steps, and 4 steps over the core alphabet)"},
+                                "over the full alphabet (one-to-one: 4 steps; many-to-many: 2 steps, and 3 steps over the core alphabet from every initial configuration)"},
     },
     "outside": [
         "'after flush and reload' (needs a database)",
@@ -561,7 +561,8 @@ def harnesses(tier: str) -> List[Harness]:
                 sl += _slices(kind, "full", i, 2)
             if kind == "m2m":
                 sl += _slices(kind, "full", 0, 2)
-                sl += _slices(kind, "core", 0, 4)
+                for i in range(ninit):
+                    sl += _slices(kind, "core", i, 3)
             elif kind == "o2o":
                 sl += _slices(kind, "full", 0, 4)
             else:
